@@ -100,6 +100,8 @@ func c18Setup(nonce int64) *c18Shared {
 				model.Field{Name: model.S(t2), Val: model.ListV(model.Int64V(int64(i*100+j)), model.StrV(t1), model.SymV(model.S(t1)).WithAnn(model.S(t2)))},
 			).WithAnn(model.S(t1)))
 		}
+		// text that needs \xHH escapes (control characters, high clob bytes)
+		vals = append(vals, model.ListV(model.StrV(fmt.Sprintf("ctl\x01\x02\x1f%c", rune(1+i))), model.ClobV([]byte{0x80, 0xFF, byte(i), 0x0E, 0x7F}), model.SymV(model.S(fmt.Sprintf("s\x03%c", rune(14+i))))))
 		s.vals = append(s.vals, vals)
 	}
 	for i, vals := range s.vals {
@@ -119,11 +121,11 @@ func c18Setup(nonce int64) *c18Shared {
 		s.docs = append(s.docs, tb.Bytes())
 	}
 	for i := 0; i < 6; i++ {
-		r := c18Rec{Name: fmt.Sprint("rec", i), Sym: texts[i], N: int32(i * 1000), M: map[string]string{texts[i]: "w"}, // one key: binary Marshal does not sort maps
+		r := c18Rec{Name: fmt.Sprintf("rec%d\x01\x1e%c", i, rune(2+i)), Sym: texts[i], N: int32(i * 1000), M: map[string]string{texts[i]: "w"}, // one key: binary Marshal does not sort maps
 			EmbInner: drive.EmbInner{X: i, Y: texts[i]}, T: ion.MustParseTimestamp("2020-02-29T01:02:03.5+01:00"), Any: []interface{}{i, "s"}}
 		if i%2 == 0 {
 			r.List = []int{i, i + 1}
-			r.Inner = &c18Inner{A: []string{"p", "q"}, B: []byte("clob")}
+			r.Inner = &c18Inner{A: []string{"p", "q\x05"}, B: []byte{'c', 0x00, 0x9C, byte(0xF0 + i)}}
 		}
 		s.recs = append(s.recs, r)
 		b, err := ion.MarshalBinary(r, s.ssts...)
